@@ -18,7 +18,7 @@ open GM.Proof.BlocksWF0 (isRaw)
 structure CInvG (F : Prop) (src : Bytes) (s : St) (U : List Block) : Prop where
   inv : ∃ B, InvGF F src B s
   tree : TreeOK s
-  pad : ∀ i, isRaw (nd s i).kind = false → Closed (nd s i) ∨ (∃ b ∈ U, b.node = i ∧ PS b) ∨
+  pad : ∀ i, isRaw (nd s i).kind = false → Closed (nd s i) ∨ (∃ b ∈ U, b.node = i ∧ PSb b) ∨
     ((nd s i).kind = .heading ∧ (nd s i).parent = none)
   att : ∀ b ∈ U, (nd s b.node).parent.isSome = true
   nodup : (U.map (·.node)).Nodup
@@ -39,7 +39,7 @@ theorem CInvG.ne {src : Bytes} {s : St} {b : Block} {U : List Block} (h : CInvG 
   exact this.1 g hg
 
 theorem CInvG.closed_of_notPS {src : Bytes} {s : St} {U : List Block} (h : CInvG F src s U) {b : Block} (hb : b ∈ U)
-    (hps : ¬ PS b) (hr : isRaw (nd s b.node).kind = false) : Closed (nd s b.node) := by
+    (hps : ¬ PSb b) (hr : isRaw (nd s b.node).kind = false) : Closed (nd s b.node) := by
   rcases h.pad b.node hr with hc | ⟨b', hb', hn, hps'⟩ | hab
   · exact hc
   · exfalso
@@ -273,14 +273,14 @@ theorem paragraphClose_empty {s s' : St} {node : Nat} (hne : (nd s node).lines =
 
 /-- **`Close` of the top block under the close discipline** -/
 theorem bpClose_clG {src : Bytes} {s s1 : St} {b : Block} {U : List Block} (h : CInvG F src s (b :: U))
-    (hsrc : s.r.source = src) (hG : ∀ g ∈ U, PS g → Guard s [b] g)
+    (hsrc : s.r.source = src) (hG : ∀ g ∈ U, PSb g → Guard s [b] g)
     (e : bpClose b.bp b.node s = .ok ((), s1)) : CInvG F src s1 U ∧ CStep s s1 U := by
   obtain ⟨hkb, hltb⟩ := h.kinds (List.mem_cons_self ..)
   obtain ⟨B, hB⟩ := h.inv
   obtain ⟨bnode, bbp⟩ := b
   simp only at hkb hltb e
   -- a `Close` that does nothing
-  have triv : s1 = s → ¬ PS ⟨bnode, bbp⟩ → CInvG F src s1 U ∧ CStep s s1 U := by
+  have triv : s1 = s → ¬ PSb ⟨bnode, bbp⟩ → CInvG F src s1 U ∧ CStep s s1 U := by
     intro hs hps
     subst hs
     exact ⟨h.drop (fun hr => h.closed_of_notPS (List.mem_cons_self ..) hps hr), CStep.refl _ _⟩
@@ -327,7 +327,7 @@ theorem bpClose_clG {src : Bytes} {s s1 : St} {b : Block} {U : List Block} (h : 
       obtain ⟨hlen, ⟨hl, hln⟩, hoth, hkind, hpc, hr⟩ := setextClose_copy ht hne hnt hltb e'
       obtain ⟨htree, hpar⟩ := setextClose_tree h.tree ht hne hnt hltb e'
       obtain ⟨hinv1, _, hop1, hkg1, _⟩ := setextClose_invG hB hkb hltb ⟨_, hbm, rfl⟩ e'
-      have hgt : ∀ g ∈ U, PS g → g.node ≠ t := by
+      have hgt : ∀ g ∈ U, PSb g → g.node ≠ t := by
         intro g hg hp hgt'
         rcases hp with hp | hp
         · exact hsafe g (List.mem_cons_of_mem _ hg) hp hgt'
@@ -335,7 +335,7 @@ theorem bpClose_clG {src : Bytes} {s s1 : St} {b : Block} {U : List Block} (h : 
           rw [hgt', hkt, hp] at this; cases this
       have hgt' : ∀ g ∈ U, g.node ≠ t := by
         intro g hg hgt''
-        by_cases hp : PS g
+        by_cases hp : PSb g
         · exact hgt g hg hp hgt''
         · have hk := (h.kinds (List.mem_cons_of_mem _ hg)).1
           rw [hgt'', hkt] at hk
@@ -365,7 +365,7 @@ theorem bpClose_clG {src : Bytes} {s s1 : St} {b : Block} {U : List Block} (h : 
       (fun hp => by rcases hp with hp | hp <;> cases hp)
   case list =>
     have e' : listClose bnode s = .ok ((), s1) := e
-    let Prot : Nat → Prop := fun i => (∃ g ∈ U, PS g ∧ g.node = i) ∨ (i < s.nodes.length ∧ (nd s i).kind ≠ .paragraph)
+    let Prot : Nat → Prop := fun i => (∃ g ∈ U, PSb g ∧ g.node = i) ∨ (i < s.nodes.length ∧ (nd s i).kind ≠ .paragraph)
     have hp0 : ∀ i, Prot i → i < s.nodes.length := by
       rintro i (⟨g, hg, _, rfl⟩ | ⟨h1, _⟩)
       · exact (h.kinds (List.mem_cons_of_mem _ hg)).2
@@ -408,7 +408,7 @@ theorem bpClose_clG {src : Bytes} {s s1 : St} {b : Block} {U : List Block} (h : 
           · exfalso; rw [hjk] at hab; cases hab.1
         · left; rw [nd_default_of_ge s1 hil']; intro u hu; cases hu
     · have hgp : Prot g.node := by
-        by_cases hp : PS g
+        by_cases hp : PSb g
         · exact .inl ⟨g, hg, hp, rfl⟩
         · obtain ⟨hk, hl⟩ := h.kinds (List.mem_cons_of_mem _ hg)
           exact .inr ⟨hl, fun hkp => hp (.inl (kind_paragraph (by rw [← hk]; exact hkp)))⟩
@@ -516,7 +516,7 @@ include hag
 /-- **the loop of closeBlocksT under the close discipline**: the blocks `l` are closed top first (only the top may be a
     leaf; a Paragraph is transformed first and closed only if it is still attached), the blocks `K` stay open -/
 theorem closeListT_clG : ∀ (l K : List Block) (s s' : St), CInvG F src s (l ++ K) → s.r.source = src →
-    (∀ b ∈ l.tail, b.bp.isContainer = true) → (∀ g ∈ K, PS g → Guard s l g) →
+    (∀ b ∈ l.tail, b.bp.isContainer = true) → (∀ g ∈ K, PSb g → Guard s l g) →
     T.closeListT pts l s = .ok ((), s') → CInvG F src s' K ∧ CStep s s' K := by
   intro l
   induction l with
@@ -538,7 +538,7 @@ theorem closeListT_clG : ∀ (l K : List Block) (s s' : St), CInvG F src s (l ++
     have cont : ∀ s1, CInvG F src s1 (rest ++ K) → CStep s s1 (rest ++ K) → T.closeListT pts rest s1 = .ok ((), s') →
         CInvG F src s' K ∧ CStep s s' K := by
       intro s1 hc1 hs1 k1
-      have hG1 : ∀ g ∈ K, PS g → Guard s1 rest g := fun g hg hp =>
+      have hG1 : ∀ g ∈ K, PSb g → Guard s1 rest g := fun g hg hp =>
         (hG g hg hp).step hs1 (List.mem_append_right _ hg) hp (fun L hL => List.mem_cons_of_mem _ hL)
       obtain ⟨hc2, hs2⟩ := ih K s1 s' hc1 (by rw [hs1.r]; exact hsrc)
         (fun g hg => hrestc g (List.mem_of_mem_tail hg)) hG1 k1
@@ -596,7 +596,7 @@ theorem closeListT_clG : ∀ (l K : List Block) (s s' : St), CInvG F src s (l ++
 theorem closeBlocksT_clG {s s' : St} (tn fn : Nat) (htf : tn ≤ fn) (hfl : fn < s.pc.opened.length)
     (h : CInvG F src s s.pc.opened) (hsrc : s.r.source = src)
     (hcont : ∀ b ∈ (((s.pc.opened.drop tn).take (fn - tn + 1)).reverse).tail, b.bp.isContainer = true)
-    (hG : ∀ g ∈ s.pc.opened.take tn ++ s.pc.opened.drop (fn + 1), PS g →
+    (hG : ∀ g ∈ s.pc.opened.take tn ++ s.pc.opened.drop (fn + 1), PSb g →
       Guard s ((s.pc.opened.drop tn).take (fn - tn + 1)).reverse g)
     (e : closeBlocksT pts (fn : Int) (tn : Int) s = .ok ((), s')) :
     CInvG F src s' (s.pc.opened.take tn ++ s.pc.opened.drop (fn + 1)) ∧
